@@ -10,6 +10,7 @@ replayed along the history without any order, sorting, merging or searching:
              for the lookup/contents claims);  theorems without `WF` hold for equal globals as well.
 -/
 import DuneVerif.Proofs.C03Spec
+import DuneVerif.Proofs.C03Src
 
 namespace DV.C03
 
@@ -168,6 +169,31 @@ theorem getElem_found (h : List Op) (hwf : WF h) (p : Pair) (hp : p ∈ (run h).
   cases h3
   exact ⟨i, h1, h2⟩
 
+/-- in terms of the specification, GROUND state: checked and unchecked access to any pair that was added and not deleted
+return precisely that pair; `at` of any other global index throws RangeError and `exists` is false -/
+theorem lookups_spec (h : List Op) (hwf : WF h) (hg : (run h).st = .ground) :
+    (∀ p ∈ (specRun h).cur, atL (run h).loc p.g = some (.ok p) ∧ ∃ i, getL (run h).loc p.g = some (i, p)) ∧
+    (∀ g, g ∉ globals (specRun h).cur → atL (run h).loc g = some (.error .range) ∧ existsL (run h).loc g = some false) := by
+  have hperm := (ground_contents h hwf hg).1
+  refine ⟨fun p hp => ?_, fun g hgn => ?_⟩
+  · have hp' : p ∈ (run h).loc := hperm.mem_iff.2 hp
+    obtain ⟨i, hi, _⟩ := getElem_found h hwf p hp'
+    exact ⟨at_found h hwf p hp', i, hi⟩
+  · have hgn' : g ∉ globals (run h).loc := fun hm => hgn ((hperm.map (·.g)).mem_iff.1 hm)
+    refine ⟨at_absent_error h g hgn', ?_⟩
+    rw [exists_iff]; simp [hgn']
+
+/-- the C++ variables `low`, `high`, `probe` are 32-bit `int`s: for every list of at most 2^30 entries (sorted or not)
+neither `size()-1` nor `high+low` nor `probe+1` leaves the range of `int`, and the result is that of the unbounded
+`search` all other theorems speak about -/
+theorem search_int32_safe (xs : List Pair) (g : Int) (hlen : xs.length ≤ 1073741824) :
+    searchI32 xs g = search xs g ∧ (searchI32 xs g).isSome := by
+  have h := searchI32_eq xs g hlen
+  obtain ⟨r, hr, _⟩ := search_total xs g
+  exact ⟨h, by rw [h, hr]; rfl⟩
+
+example : searchI32 (run demo).loc 7 = some 2 := by decide
+
 example : atL (run demo).loc 5 = some (.ok ⟨5, ⟨1, 3, false, true⟩⟩) := rfl
 example : atL (run demo).loc 4 = some (.error .range) := rfl
 
@@ -286,36 +312,37 @@ theorem eq_of_nodup_map {β : Type} (f : Pair → β) : ∀ (xs : List Pair), (x
       · exact absurd (by rw [← hqx, ← hf]; exact List.mem_map.2 ⟨p, hp', rfl⟩) hn.1
       · exact eq_of_nodup_map f xs hn.2 p hp' q hq' hf
 
+theorem replicate_none_getElem? (n j : Nat) (hj : j < n) : (List.replicate n (none : Option Pair))[j]? = some none := by
+  simp [hj]
+
 /-- `GlobalLookupIndexSet(set)`: when the local numbers are pairwise distinct the table inverts the map —
-`pair(p.local) = p` for every stored pair, null for every number no pair carries; its size is max local + 1 -/
+`pair(p.local) = p` for every stored pair, a null pointer in every cell whose number no pair carries (stated for the
+cells INSIDE the table only: `pair(j)` with `j ≥ size` is an out-of-range read in the C++ code); its size is max local + 1 -/
 theorem reverse_lookup_inverts (xs : List Pair) (hd : (xs.map (·.l.loc)).Nodup) :
     ∃ t, lookupAuto xs = some t ∧ t.length = maxLocal xs 0 + 1 ∧
       (∀ p ∈ xs, tablePair t p.l.loc = some p) ∧
-      (∀ j, (∀ p ∈ xs, p.l.loc ≠ j) → tablePair t j = none) := by
+      (∀ j, j < t.length → (∀ p ∈ xs, p.l.loc ≠ j) → t[j]? = some none) := by
   have hb : ∀ p ∈ xs, p.l.loc < (List.replicate (maxLocal xs 0 + 1) (none : Option Pair)).length := by
     intro p hp
     have := (maxLocal_ge xs 0).2 p hp
     simp; omega
   obtain ⟨t, h1, h2, h3, h4⟩ := fillTable_spec xs _ hb
-  refine ⟨t, h1, by simpa using h2, ?_, ?_⟩
+  have hlen : t.length = maxLocal xs 0 + 1 := by simpa using h2
+  refine ⟨t, h1, hlen, ?_, ?_⟩
   · intro p hp
     obtain ⟨q, hq, hql, hqt⟩ := h4 p hp
     have : q = p := eq_of_nodup_map (·.l.loc) xs hd q hq p hp hql
     subst this
     simp [tablePair, hqt]
-  · intro j hj
-    have := h3 j hj
-    unfold tablePair
-    rw [this]
-    by_cases hjl : j < maxLocal xs 0 + 1
-    · simp [hjl]
-    · simp [hjl]
+  · intro j hjl hj
+    rw [h3 j hj]
+    exact replicate_none_getElem? _ j (by omega)
 
 /-- the same for `GlobalLookupIndexSet(set, n)` whenever every local number is below `n` (the constructor's assert) -/
 theorem reverse_lookup_sized (xs : List Pair) (n : Nat) (hb : ∀ p ∈ xs, p.l.loc < n) (hd : (xs.map (·.l.loc)).Nodup) :
     ∃ t, lookupSized xs n = some t ∧ t.length = n ∧
       (∀ p ∈ xs, tablePair t p.l.loc = some p) ∧
-      (∀ j, (∀ p ∈ xs, p.l.loc ≠ j) → tablePair t j = none) := by
+      (∀ j, j < n → (∀ p ∈ xs, p.l.loc ≠ j) → t[j]? = some none) := by
   obtain ⟨t, h1, h2, h3, h4⟩ := fillTable_spec xs (List.replicate n none) (by simpa using hb)
   refine ⟨t, h1, by simpa using h2, ?_, ?_⟩
   · intro p hp
@@ -323,13 +350,22 @@ theorem reverse_lookup_sized (xs : List Pair) (n : Nat) (hb : ∀ p ∈ xs, p.l.
     have : q = p := eq_of_nodup_map (·.l.loc) xs hd q hq p hp hql
     subst this
     simp [tablePair, hqt]
-  · intro j hj
-    have := h3 j hj
-    unfold tablePair
-    rw [this]
-    by_cases hjl : j < n
-    · simp [hjl]
-    · simp [hjl]
+  · intro j hjl hj
+    rw [h3 j hj]
+    exact replicate_none_getElem? _ j hjl
+
+/-- without any assumption on the local numbers (several pairs may carry the same one): every cell holds SOME stored pair
+with that local number, or null when there is none — which of several candidates is not part of the property -/
+theorem reverse_lookup_some_carrier (xs : List Pair) :
+    ∃ t, lookupAuto xs = some t ∧ ∀ p ∈ xs, ∃ q ∈ xs, q.l.loc = p.l.loc ∧ tablePair t p.l.loc = some q := by
+  have hb : ∀ p ∈ xs, p.l.loc < (List.replicate (maxLocal xs 0 + 1) (none : Option Pair)).length := by
+    intro p hp
+    have := (maxLocal_ge xs 0).2 p hp
+    simp; omega
+  obtain ⟨t, h1, _, _, h4⟩ := fillTable_spec xs _ hb
+  refine ⟨t, h1, fun p hp => ?_⟩
+  obtain ⟨q, hq, hql, hqt⟩ := h4 p hp
+  exact ⟨q, hq, hql, by simp [tablePair, hqt]⟩
 
 /-- the forward lookup of the table is the index set's own `operator[]` (`indexSet_[global]`), so on a reachable set
 with distinct local numbers  `pair(operator[](g).local) = operator[](g)` -/
@@ -339,6 +375,44 @@ theorem reverse_lookup_roundtrip (h : List Op) (hwf : WF h) (hd : ((run h).loc.m
   obtain ⟨t, h1, _, h3, _⟩ := reverse_lookup_inverts _ hd
   obtain ⟨i, hi, _⟩ := getElem_found h hwf p hp
   exact ⟨t, i, h1, hi, h3 p hp⟩
+
+/-- the hypothesis of the three theorems above is established by `renumberLocal`: after renumbering in GROUND state
+(ANY history, no well-formedness needed) the automatic table has one cell per stored pair (one null cell for the empty
+set) and cell `i` is the `i`-th pair in iteration order, whose local number is `i` -/
+theorem reverse_lookup_after_renumber (h : List Op) (hg : (run h).st = .ground) :
+    ∃ t, lookupAuto (run (h ++ [.renumber])).loc = some t ∧ t.length = max 1 (run h).loc.length ∧
+      ∀ (i : Nat) (p : Pair), (run (h ++ [.renumber])).loc[i]? = some p → p.l.loc = i ∧ tablePair t i = some p := by
+  have hloc : (run (h ++ [.renumber])).loc = renumFrom 0 (run h).loc := by
+    unfold run at *
+    rw [runFrom_append]
+    generalize (runFrom init h).1 = s at *
+    have hne : ¬ s.st = .resize := by rw [hg]; intro h; cases h
+    simp only [runFrom, step, renumberLocal, hne, if_false, lift]
+  rw [hloc]
+  generalize (run h).loc = xs
+  have hlocs := renumFrom_locs 0 xs
+  have hd : ((renumFrom 0 xs).map (·.l.loc)).Nodup := by rw [hlocs]; exact List.nodup_range'
+  obtain ⟨t, h1, h2, h3, _⟩ := reverse_lookup_inverts _ hd
+  refine ⟨t, h1, ?_, ?_⟩
+  · rw [h2]
+    by_cases hx : xs = []
+    · subst hx; rfl
+    · rw [maxLocal_renumFrom xs 0 0 hx (Nat.le_refl _)]
+      have : 0 < xs.length := List.length_pos_iff.2 hx
+      omega
+  · intro i p hp
+    have hpl : p.l.loc = i := by
+      rw [renumFrom_getElem?] at hp
+      obtain ⟨q, _, rfl⟩ := Option.map_eq_some_iff.1 hp
+      simp [setLoc]
+    refine ⟨hpl, ?_⟩
+    have := h3 p (List.mem_of_getElem? hp)
+    rwa [hpl] at this
+
+example : ((run demo).loc.map (·.l.loc)).Nodup := by decide
+example : ∃ t, lookupAuto (run (demo ++ [.renumber])).loc = some t ∧ t.length = 4 := ⟨_, rfl, rfl⟩
+/-- several pairs with the same local number (the case `reverse_lookup_some_carrier` is about) -/
+example : ((run [.beginResize, .add 1 0 0 true, .add 2 0 1 true, .endResize]).loc.map (·.l.loc)) = [0, 0] := by decide
 
 example : ∃ t, lookupAuto (run demo).loc = some t ∧ t.length = 4 ∧
     (t.map fun c => c.map (·.g)) = [some 2, some 5, some 7, some 9] := by decide
@@ -406,5 +480,88 @@ theorem rejected_op_leaves_state (s : ISet) (op : Op) (e : Err) (h : (step s op)
 
 example : (step (run demo) (.add 1 1 1 true)).2 = .err .invalidState := by decide
 example : (step (run (demo ++ [.beginResize])) .renumber).2 = .err .invalidState := by decide
+
+/-! ## the tie to the source: the model coincides with the pieces regenerated from indexset.hh / plocalindex.hh
+
+`Gen.*` (lean/DuneVerif/Gen/C03.lean) is rewritten by tools/translators/tr_c03.py from the working tree on every run;
+`Src.*` (Model/C03Src.lean) interprets it.  Each theorem says: the hand-written model function all theorems above are
+about is exactly what the source text says.  A changed check, effect, comparison, DELETED test or search skeleton
+changes a `Gen` definition and with it what has to be proved here.
+
+Deliberately NOT tied (they cannot break the property, so a change there must not raise an alarm): what the mutators
+other than `markAsDeleted` do to `deletedEntries_` and the two branch conditions of `merge()` — both only decide
+whether `merge()` may skip work whose result would be the unchanged list (`Gen.mergeCopies`, `Gen.mergeLoops` are
+emitted for information); whether a check is the first statement (`Check.first`); the generic
+`LocalIndexComparator` (`Gen.genericCompare`; TL = LocalIndex has no attributes and is outside the property's
+quantifier — the `NL` configurations of the harness cover it by correspondence only). -/
+open Src in
+/-- all seven state checks throw `InvalidIndexSetState` -/
+theorem checks_matches_source :
+    ∀ c ∈ [Gen.chk_beginResize, Gen.chk_add1, Gen.chk_add2, Gen.chk_markAsDeleted, Gen.chk_iterMarkAsDeleted,
+      Gen.chk_endResize, Gen.chk_renumberLocal], c.exc = "InvalidIndexSetState" := by decide
+
+open Src in
+theorem beginResize_matches_source (s : ISet) :
+    (beginResize s).map visible = (mutatorSrc Gen.chk_beginResize Gen.eff_beginResize id s).map visible := by
+  simp only [Gen.chk_beginResize, Gen.eff_beginResize, mutatorSrc, Check.rejects, Effects.apply, beginResize]
+  cases h : s.st <;> simp [Except.map, visible]
+
+open Src in
+/-- both `add` overloads -/
+theorem add_matches_source (s : ISet) (p : Pair) :
+    (add s p).map visible = (mutatorSrc Gen.chk_add2 Gen.eff_add2 (fun s => { s with fresh := s.fresh ++ [p] }) s).map visible ∧
+    (add s p).map visible = (mutatorSrc Gen.chk_add1 Gen.eff_add1 (fun s => { s with fresh := s.fresh ++ [p] }) s).map visible := by
+  simp only [Gen.chk_add1, Gen.chk_add2, Gen.eff_add1, Gen.eff_add2, mutatorSrc, Check.rejects, Effects.apply, add]
+  cases h : s.st <;> simp [Except.map, visible]
+
+open Src in
+/-- `markAsDeleted(iterator)`: the check of the index set, then the check of `iterator::markAsDeleted`; here the effect
+on `deletedEntries_` matters (it makes the next `endResize` drop the entry) and is part of the statement -/
+theorem markAsDeleted_matches_source (s : ISet) (i : Nat) :
+    markAsDeleted s i =
+      if Gen.chk_markAsDeleted.rejects s.st || Gen.chk_iterMarkAsDeleted.rejects s.st then .error .invalidState
+      else .ok (Gen.eff_markAsDeleted.apply { s with loc := modifyAt setDeleted i s.loc }) := by
+  simp only [markAsDeleted, Gen.chk_markAsDeleted, Gen.chk_iterMarkAsDeleted, Check.rejects, Gen.eff_markAsDeleted,
+    Effects.apply]
+  cases s.st <;> simp
+
+open Src in
+theorem endResize_matches_source (s : ISet) :
+    (endResize s).map visible =
+      (mutatorSrc Gen.chk_endResize Gen.eff_endResize (fun s => merge { s with fresh := sortFresh s.fresh }) s).map visible := by
+  simp only [Gen.chk_endResize, Gen.eff_endResize, mutatorSrc, Check.rejects, Effects.apply, endResize]
+  cases h : s.st <;> simp [Except.map, visible]
+
+open Src in
+theorem renumberLocal_matches_source (s : ISet) :
+    (renumberLocal s).map visible =
+      (mutatorSrc Gen.chk_renumberLocal Gen.eff_renumberLocal (fun s => { s with loc := renumFrom 0 s.loc }) s).map visible := by
+  simp only [Gen.chk_renumberLocal, Gen.eff_renumberLocal, mutatorSrc, Check.rejects, Effects.apply, renumberLocal]
+  cases h : s.st <;> simp [Except.map, visible]
+
+open Src in
+/-- `IndexSetSortFunctor` and the comparison in `merge()`, each together with
+`LocalIndexComparator<ParallelLocalIndex<T>>`, are the model's `before` -/
+theorem comparison_matches_source (x y : Pair) :
+    beforeSrc Gen.sortFunctor Gen.plocalCompare x y = before x y ∧
+    beforeSrc Gen.mergeTakesOld Gen.plocalCompare x y = before x y :=
+  ⟨beforeSrc_canon x y, beforeSrc_canon x y⟩
+
+open Src in
+/-- the three loops of `merge()` with the source's comparison and its two DELETED tests -/
+theorem merge_matches_source (old added : List Pair) :
+    mergeLoop old added =
+      mergeLoopSrc Gen.mergeTakesOld Gen.plocalCompare Gen.mergeLoop1Drops Gen.mergeLoop2Keeps old added :=
+  (mergeLoopSrc_canon old added).symm
+
+open Src in
+/-- the five copies of the binary search: `exists`, `at`, `at const`, `operator[]`, `operator[] const` -/
+theorem lookups_match_source (xs : List Pair) (g : Int) :
+    (lookupSrc Gen.search_exists xs g).toExists = existsL xs g ∧
+    (lookupSrc Gen.search_at xs g).toAt = atL xs g ∧
+    (lookupSrc Gen.search_atConst xs g).toAt = atL xs g ∧
+    (lookupSrc Gen.search_get xs g).toGet = getL xs g ∧
+    (lookupSrc Gen.search_getConst xs g).toGet = getL xs g :=
+  ⟨lookupSrc_exists xs g, lookupSrc_at xs g, lookupSrc_at xs g, lookupSrc_get xs g, lookupSrc_get xs g⟩
 
 end DV.C03
